@@ -89,6 +89,18 @@ pipe.SCALE = 5
 check_full("after editing a tracked variable", *run(), s, expect_calls=["root", "nested"])
 pipe.SCALE = 2
 check_full("after reverting the edit (all blobs present)", *run(), s, expect_calls=[])
+# results that are None: stored and served like any other value (root of a keep, of a direct data-function style call, nested)
+s = fresh()
+for attempt in (1, 2, 3):
+    s.ev.clear(); pipe.CALLS.clear()
+    try:
+        r = dds.keep("/out/none_root", pipe.none_root)
+    except BaseException as e:
+        bad("hit", "None-valued pipeline, evaluation %d: raised %r" % (attempt, e)); break
+    if r is not None: bad("value", "None-valued pipeline returned %r" % (r,))
+    want = ["none_root", "none_leaf"] if attempt == 1 else []
+    if sorted(pipe.CALLS) != sorted(want):
+        bad("hit", "kept functions returning None, evaluation %d of the unchanged pipeline: executed %s, expected %s" % (attempt, pipe.CALLS, want))
 # only nested blob missing: root hit
 # ---- dry runs ----------------------------------------------------------------------------------------------------
 for stages in (["analysis"], ["ANALYSIS"], [PS.ANALYSIS], ["analysis", "store_inspect"], ["Analysis", PS.STORE_INSPECT]):
@@ -243,6 +255,15 @@ def inner_eval():
 def nested_eval():
     CALLS.append("nested_eval")
     return inner_eval()
+
+def none_leaf():
+    CALLS.append("none_leaf")
+    return None
+
+def none_root():
+    CALLS.append("none_root")
+    x = dds.keep("/out/none_leaf", none_leaf)
+    return None
 
 def other_leaf():
     CALLS.append("other_leaf")
